@@ -13,7 +13,7 @@ PKG2 = "network"
 HARNESS2 = ["network/zz_verif_c15_test.go", "network/transport/grpc/zz_verif_export_c15.go"]
 PKG3 = "network/transport/grpc"
 HARNESS3 = ["network/transport/grpc/zz_verif_c15_test.go", "network/transport/grpc/zz_verif_c15_inbound_test.go",
-            "network/transport/grpc/zz_verif_c15_outbound_test.go"]
+            "network/transport/grpc/zz_verif_c15_outbound_test.go", "network/transport/grpc/zz_verif_c15_mixed_test.go"]
 HARNESSES = [(PKG, HARNESS, "c15"), (PKG2, HARNESS2, "c15cfg"), (PKG3, HARNESS3, "c15tls")]
 
 REQUIRED = ["payload_only_in_payload_msg", "private_payload_release_sound", "decrypt_iff_member", "payload_stored_only_if_hash_matches", "payload_with_transaction_only_if_hash_matches",
@@ -239,7 +239,8 @@ def run(ctx):
     # not chain to the trust store (self-signed, other CA, none) is never accepted, in TLS 1.2 and 1.3
     t_bad, tls_lines, n_inbound, inbound_streams, inbound_res = 0, 0, 0, 0, Counter()
     n_outbound, outbound_snaps, outbound_res = 0, 0, Counter()
-    if not ctx.replay or '"op":"tlsclient"' in open(ctx.replay).read(4096) or '"op":"cmauth"' in open(ctx.replay).read(4096) or '"op":"offload' in open(ctx.replay).read(4096) or '"op":"inbound"' in open(ctx.replay).read(4096) or '"op":"outbound"' in open(ctx.replay).read(4096):
+    n_mixed, mixed_checks, mixed_res = 0, 0, Counter()
+    if not ctx.replay or '"op":"tlsclient"' in open(ctx.replay).read(4096) or '"op":"cmauth"' in open(ctx.replay).read(4096) or '"op":"offload' in open(ctx.replay).read(4096) or '"op":"inbound"' in open(ctx.replay).read(4096) or '"op":"outbound"' in open(ctx.replay).read(4096) or '"op":"mixed"' in open(ctx.replay).read(4096):
         b3 = ctx.go_test_binary(PKG3, HARNESS3, "c15tls")
         if b3 is None:
             ctx.oblige("harness-builds:grpc.newServerTLSConfig", False, ctx.harness_error[-1200:])
@@ -297,6 +298,37 @@ def run(ctx):
                                                   f"handleInboundStream ({j['kind']} authenticator): after event {en} stream {sid} (peerID header {pids}, nodeDID header {dids}, certificate "
                                                   f"{e.get('cert') if e.get('hascert') else None}) sits on connection id={cid} did={cdid} authenticated={cauth}: the v2 handlers serve it with that "
                                                   f"identity (private payloads of {cdid or 'nobody'}) although its own set-up did not establish it", "inbound.jsonl", ops3[k])
+                        continue
+                    if j["op"] == "mixed":
+                        # ONE connection list with inbound streams and dialled connections interleaved (real getOrRegister both ways, openOutboundStream,
+                        # handleInboundStream, disconnect/remove): after every event, every connection: authenticated => DID + covering certificate;
+                        # every stream on a connection with a DID named that DID in ITS OWN set-up and ITS OWN certificate covers it
+                        n_mixed += 1
+                        didtab, eps = dict(map(tuple, j["didtab"])), dict(map(tuple, j["endpoints"]))
+                        opened = {e["sid"]: e for e in j["events"] if e["e"] in ("inopen", "outstream")}
+                        for en, part in enumerate(l[len("mixed "):].split(" ; ")):
+                            res, _, snap = part.partition("|")
+                            mixed_res[j["events"][en]["e"] + ":" + res.rstrip("0123456789")] += 1
+                            for c in filter(None, snap.split(",")):
+                                cid, cdid, cauth, dns, sids = c.split("~")
+                                why = None
+                                if cauth == "true" and not (cdid and (j["kind"] == "dummy" or eps.get(cdid) in dns.split("+"))):
+                                    why = f"connection id={cid} is authenticated as {cdid!r} with certificate {dns!r}"
+                                for sid in filter(None, sids.split("+")):
+                                    e = opened[int(sid)]
+                                    dids = e.get("dids", [])
+                                    named = didtab.get(dids[0].strip()) if len(dids) == 1 and dids[0].strip() else ""
+                                    own = j["kind"] == "dummy" or (e.get("hascert", False) and eps.get(cdid) in e.get("cert", []))
+                                    mixed_checks += 1
+                                    if cdid and not (named == cdid and own):
+                                        why = (f"{e['e']} stream {sid} (nodeDID header {dids}, certificate {e.get('cert') if e.get('hascert') else None}) sits on connection "
+                                               f"id={cid} did={cdid} authenticated={cauth} without having proved that DID itself")
+                                if why:
+                                    t_bad += 1
+                                    if any("shared-connection-list" in v[1] for v in ctx.violations):
+                                        continue
+                                    ctx.violation("C15:shared-connection-list-identity-not-proved-by-every-stream",
+                                                  f"connection list ({j['kind']} authenticator) after event {en} ({j['events'][en]['e']} -> {res}): {why}", "mixed.jsonl", ops3[k])
                         continue
                     if j["op"] == "outbound":
                         # an outbound connection on the REAL openOutboundStreams: connection.Peer() (what the v2 handlers decide on) keeps the DID this
@@ -404,7 +436,8 @@ def run(ctx):
                                      "network_configure_cases(tls x strict x nodeDID)": cfg_lines,
                                      "inbound_stream_histories": n_inbound, "inbound_event_outcomes": dict(inbound_res),
                                      "inbound_stream_on_connection_checks": inbound_streams,
-                                     "outbound_connections": n_outbound, "outbound_outcomes": dict(outbound_res), "outbound_snapshots_checked": outbound_snaps}
+                                     "outbound_connections": n_outbound, "outbound_outcomes": dict(outbound_res), "outbound_snapshots_checked": outbound_snaps,
+                                     "mixed_list_histories": n_mixed, "mixed_event_outcomes": dict(mixed_res), "mixed_stream_on_connection_checks": mixed_checks}
     ctx.cov["samples"] = [steps[60][:300] if len(steps) > 60 else "", next((l for l in impl if "pl(" in l), "")[:300]]
     if gaps:
         ctx.notes.append(f"gap exercised (not a violation): holder able to decrypt without being listed released the payload to listed peers: {dict(gaps)}")
